@@ -47,7 +47,12 @@ func c08EngineAgreement(r *lp.Run, rng *lp.Rand) {
 		case k < 4:
 			return lit(lp.Pick(rng, alpha))
 		case k == 4:
+			// range endpoints other than '-': regexp2 itself mis-reads a class range that starts or ends with an
+			// escaped hyphen (`[\--d]`), which is the third-party engine's deviation, not the conversion's
 			a, b := lp.Pick(rng, alpha), lp.Pick(rng, alpha)
+			for a == '-' || b == '-' {
+				a, b = lp.Pick(rng, alpha), lp.Pick(rng, alpha)
+			}
 			if a > b {
 				a, b = b, a
 			}
@@ -55,7 +60,11 @@ func c08EngineAgreement(r *lp.Run, rng *lp.Rand) {
 			if rng.Chance(30) {
 				neg = "^"
 			}
-			return "[" + neg + lit(a) + "-" + lit(b) + lit(lp.Pick(rng, alpha)) + "]"
+			single := lp.Pick(rng, alpha)
+			for single == '-' {
+				single = lp.Pick(rng, alpha)
+			}
+			return "[" + neg + lit(a) + "-" + lit(b) + lit(single) + "]"
 		case k == 5:
 			return lp.Pick(rng, []string{`\d`, `\w`, `\D`, `\W`})
 		case k == 6 && d > 0:
